@@ -37,6 +37,11 @@ def bases():
     return c13.engine_recipes()[:5]
 
 
+def shared_bases():
+    """Engines whose outputs share ONE defuzzifier / operator instance (the imported engine has one per variable)."""
+    return [r for r, _ in c01.space_g("quick")]
+
+
 def decimals_for(tier: str):
     return [3, 9, 1] if tier == "quick" else list(range(1, 10))
 
@@ -142,6 +147,21 @@ def run_recipe(acc: Acc, group: str, label: str, recipe: dict, d: int, separator
         acc.transitions += 1
         if ex.to_string(E) != T1:
             acc.violate("not-repeatable", {"group": group}, case, T1[:200], "differs", f"[{label}] d={d}: exporting the same engine twice gives different text")
+            return
+        # an engine that has been used exports the same text (processing does not reconfigure it)
+        for iv in E.input_variables:
+            iv.value = 0.25
+        try:
+            E.process()
+        except Exception:  # noqa: BLE001
+            pass
+        acc.transitions += 1
+        T_used = ex.to_string(E)
+        if T_used != T1:
+            l1, l2 = T1.split("\n"), T_used.split("\n")
+            diff = next(((a, b) for a, b in itertools.zip_longest(l1, l2) if a != b), ("", ""))
+            acc.violate("changed-by-processing", {"group": group}, case, diff[0], diff[1],
+                        f"[{label}] d={d}: after one process() call the engine exports {diff[1]!r} instead of {diff[0]!r}")
             return
         # argument kinds: the same engine built from numpy.float32 scalars exports the same text (when every number is
         # exactly representable in single precision, so that the two engines hold the same values)
@@ -318,6 +338,12 @@ def run_shard(tier: str, seed: int, shard: int):
         if shard == bi:
             for d in (3, 9):
                 acc.guard({"label": "variants", "group": "variant", "decimals": d, "recipe": base}, run_variants, acc, base, d)
+    for k, recipe in enumerate(shared_bases()):
+        if k % N_SHARDS == shard:
+            acc.states += 1
+            acc.cls("group_shared")
+            for d in (3, 9):
+                acc.guard({"label": f"shared:{k}", "group": "shared", "decimals": d, "recipe": recipe}, run_recipe, acc, "shared", f"G{k}:shared-instances", recipe, d)
     if shard == 0:
         reset_settings()
         acc.sample({"base": "A", "deviation": "in0.term0=Discrete[0,0,0.25,1,...] h0.5", "decimals": 3,
